@@ -1,0 +1,84 @@
+//go:build verif
+// +build verif
+
+// Contracts for the functions of this package, checked by the verification-condition
+// generator in /verif (ionvc). The file is comment-only: every line starting with //@
+// is part of a contract block. Expressions are Go expressions over the parameters
+// (entry values), `result`/`resultN`/`err`, old(e), plus ==>, <==> and
+// `forall x T :: e`. Specification functions live in zz_verif_spec.go.
+
+package ion
+
+// ---------------------------------------------------------------------------
+// bits.go: length functions equal the closed-form specification
+
+//@ func uintLen
+//@ unroll loop0 8
+//@ ensures[C04,C13] result == specUintLen(v)
+//@ safe[C04]
+
+//@ func varUintLen
+//@ unroll loop0 10
+//@ ensures[C04,C13] result == specVarUintLen(v)
+//@ safe[C04]
+
+//@ func intLen
+//@ ensures[C04,C13] result == specIntLen(n)
+//@ safe[C04]
+
+//@ func varIntLen
+//@ unroll loop0 10
+//@ ensures[C04,C13] result == specVarIntLen(v)
+//@ safe[C04]
+
+//@ func tagLen
+//@ ensures[C04] result == specTagLen(length)
+//@ safe[C04]
+
+// bits.go: the append functions write exactly the specified bytes after the old contents
+
+//@ func appendUint
+//@ ensures[C04] vcFresh(result) || vcSameArray(result, b)
+//@ unroll loop0 8
+//@ ensures[C04,C13] len(result) == len(b) + int(specUintLen(v))
+//@ ensures[C01,C13] forall k int :: 0 <= k && k < int(specUintLen(v)) ==>
+//@    result[len(b)+k] == specUintByte(v, specUintLen(v), uint64(k))
+//@ ensures[C04] forall k int :: 0 <= k && k < len(b) ==> result[k] == old(b)[k]
+//@ safe[C04]
+
+//@ func appendVarUint
+//@ ensures[C04] vcFresh(result) || vcSameArray(result, b)
+//@ unroll loop0 10
+//@ ensures[C04,C13] len(result) == len(b) + int(specVarUintLen(v))
+//@ ensures[C01,C13] forall k int :: 0 <= k && k < int(specVarUintLen(v)) ==>
+//@    result[len(b)+k] == specVarUintByte(v, specVarUintLen(v), uint64(k))
+//@ ensures[C04] forall k int :: 0 <= k && k < len(b) ==> result[k] == old(b)[k]
+//@ safe[C04]
+
+//@ func appendInt
+//@ ensures[C04] vcFresh(result) || vcSameArray(result, b)
+//@ ensures[C04,C13] len(result) == len(b) + int(specIntLen(n))
+//@ ensures[C01,C13] forall k int :: 0 <= k && k < int(specIntLen(n)) ==>
+//@    result[len(b)+k] == specIntByte(n, specIntLen(n), uint64(k))
+//@ ensures[C04] forall k int :: 0 <= k && k < len(b) ==> result[k] == old(b)[k]
+//@ safe[C04]
+
+//@ func appendVarInt
+//@ ensures[C04] vcFresh(result) || vcSameArray(result, b)
+//@ unroll loop0 10
+//@ ensures[C04,C13] len(result) == len(b) + int(specVarIntLen(v))
+//@ ensures[C01,C13] forall k int :: 0 <= k && k < int(specVarIntLen(v)) ==>
+//@    result[len(b)+k] == specVarIntByte(v, specVarIntLen(v), uint64(k))
+//@ ensures[C04] forall k int :: 0 <= k && k < len(b) ==> result[k] == old(b)[k]
+//@ safe[C04]
+
+//@ func appendTag
+//@ inlinecall appendVarUint
+//@ ensures[C04] vcFresh(result) || vcSameArray(result, b)
+//@ ensures[C04] len(result) == len(b) + int(specTagLen(length))
+//@ ensures[C01,C04] length < 14 ==> result[len(b)] == code|byte(length)
+//@ ensures[C01,C04] length >= 14 ==> result[len(b)] == code|0x0E
+//@ ensures[C01,C04] forall k int :: length >= 14 && 0 <= k && k < int(specVarUintLen(length)) ==>
+//@    result[len(b)+1+k] == specVarUintByte(length, specVarUintLen(length), uint64(k))
+//@ ensures[C04] forall k int :: 0 <= k && k < len(b) ==> result[k] == old(b)[k]
+//@ safe[C04]
